@@ -8,6 +8,7 @@ import (
 	"fmt"
 	"os"
 	"path/filepath"
+	"runtime/debug"
 	"sort"
 	"strings"
 	"time"
@@ -29,7 +30,7 @@ func (r *rng) intn(n int) int {
 	}
 	return int(r.next() % uint64(n))
 }
-func (r *rng) bool() bool { return r.next()&1 == 1 }
+func (r *rng) bool() bool          { return r.next()&1 == 1 }
 func pick[T any](r *rng, xs []T) T { return xs[r.intn(len(xs))] }
 
 // ---- Coq term emission ------------------------------------------------------
@@ -180,6 +181,9 @@ func protect(f func()) (panicked bool, msg string) {
 		if r := recover(); r != nil {
 			panicked = true
 			msg = fmt.Sprint(r)
+			if os.Getenv("VERIF_STACKS") != "" {
+				msg += "\n" + string(debug.Stack())
+			}
 		}
 	}()
 	f()
